@@ -296,7 +296,13 @@ func (c *EvalCtx) Eval(e *Expr) EV {
 		}
 		nc.names[e.Var] = EV{V: kv, T: tInt}
 		rng := tb.And(tb.BVCmp("bvsle", lo, kv), tb.BVCmp("bvslt", kv, hi))
+		if !skolem {
+			x.curBVars = append(x.curBVars, kv)
+		}
 		body := nc.Bool(e.Args[2])
+		if !skolem {
+			x.curBVars = x.curBVars[:len(x.curBVars)-1]
+		}
 		if isForall {
 			r := tb.Implies(rng, body)
 			if skolem {
@@ -942,6 +948,52 @@ func (c *EvalCtx) call(e *Expr) EV {
 				vt = types.Typ[types.Bool]
 			}
 			return EV{V: x.atomicGet(c.st, loc, vt), T: vt}
+		case "mapHas", "mapAt":
+			a := c.Eval(args[0])
+			mv, ok := a.V.(*MapV)
+			if !ok {
+				specFail("%s of %T", name, a.V)
+			}
+			q := c.toIndex(c.Eval(args[1]))
+			if name == "mapHas" {
+				return EV{V: x.Select(x.objState(c.st, mv.Obj).Leaves["#present"], q), T: tBool}
+			}
+			return EV{V: x.readElem(c.st, mv.Obj, q, nil, mv.Elem), T: mv.Elem}
+		case "idxkey":
+			q := c.toIndex(c.Eval(args[0]))
+			return EV{V: tb.App(tb.DeclareFun("map.idxkey", []Sort{BV(64)}, SInt), q), T: types.Typ[types.String]}
+		case "keyidx":
+			a := c.Eval(args[0])
+			t, ok := a.V.(*Term)
+			if !ok || !isString(a.T) {
+				specFail("keyidx of a non-string")
+			}
+			return EV{V: x.keyIdx(c.st, t), T: tInt}
+		case "sprintf":
+			// sprintf("fmt", a, b, ...): the value fmt.Sprintf returns for these arguments (same uninterpreted function as the model)
+			if args[0].Op != "str" || len(args) < 2 || len(args) > 5 {
+				specFail("sprintf(\"format\", 1..4 values)")
+			}
+			o := x.newArrayObject(c.st, "spec.sprintf.args", types.Universe.Lookup("any").Type(), tb.BVi(64, int64(len(args)-1)), false, true)
+			for i, ae := range args[1:] {
+				av := c.Eval(ae)
+				if av.Const != nil {
+					specFail("sprintf: untyped constant argument; add a conversion")
+				}
+				t, ok := av.V.(*Term)
+				if !ok {
+					specFail("sprintf: scalar arguments only")
+				}
+				iv := &IfaceV{Dyn: av.T, Val: t, Tag: x.typeTag(av.T), Id: tb.Intc(1)}
+				x.ifaceBits(iv)
+				x.writeElem(c.st, o, tb.BVi(64, int64(i)), nil, o.Elem, iv)
+			}
+			n := tb.BVi(64, int64(len(args)-1))
+			r, ok := x.sprintfModel(c.st, x.strConst(args[0].Name), &SliceV{Obj: o, IsNil: tb.False(), Off: tb.BVi(64, 0), Len: n, Cap: n, Elem: o.Elem})
+			if !ok {
+				specFail("sprintf: cannot model these arguments")
+			}
+			return EV{V: r, T: types.Typ[types.String]}
 		case "mapsize":
 			a := c.Eval(args[0])
 			ov, ok := a.V.(*OpaqueV)
@@ -1086,6 +1138,8 @@ func (c *EvalCtx) call(e *Expr) EV {
 
 func objOf(v SVal) *Object {
 	switch t := v.(type) {
+	case *MapV:
+		return t.Obj
 	case *SliceV:
 		return t.Obj
 	case *PtrV:
